@@ -880,6 +880,8 @@ def coq_schema(s):
         if "length" in s:
             if isinstance(s["length"], bool) or not isinstance(s["length"], int):
                 raise Untranslatable("length")
+            if s.get("noLengthEncodingExhaustBuffer", False) or "arrayLengthFormat" in s:
+                raise Untranslatable("length together with another array mode")
             m = "(AFixed %s)" % cz(s["length"])
         elif s.get("noLengthEncodingExhaustBuffer", False):
             m = "AExhaust"
@@ -917,13 +919,26 @@ def coq_odec(s, dec):
     return "(OV %s)" % coq_value(s, untag(dec))
 
 
-def coq_rows(schema, values, rows):
+CRES = {"ok": "CAccept", "MetadataSchemaValidationError": "CSchemaErr", "KeyError": "CKeyErr"}
+
+
+def coq_construct(schema, cons):
+    """`the model's MetadataSchema() outcome = the observed one`, or None"""
+    if cons not in CRES:
+        return None
+    try:
+        return "cres_eqb (construct %s) %s" % (coq_top(schema), CRES[cons])
+    except (Untranslatable, KeyError, TypeError, AttributeError):
+        return None
+
+
+def coq_rows(schema, values, rows, cons="ok"):
     """conjunction of check_row terms, or None when nothing is translatable"""
     try:
         top = coq_top(schema)
     except Untranslatable:
         return None
-    terms = []
+    terms = ["cres_eqb (construct c12_t) %s" % CRES[cons]]
     for tv, row in zip(values, rows):
         try:
             oe = coq_oenc(row.get("enc"))
@@ -1343,9 +1358,16 @@ class StructInvalidSchema(Family):
             made += 1
             yield {"schema": r[0], "rule": r[1], "where": r[2]}
 
+    prelude = "From TskVerif Require Import Base.Common C12.Model.\nOpen Scope Z_scope."
+
     def observe(self, case):
         st, r = guarded(lambda: construct(case["schema"])[1], 5.0)
         return {"construct": r if st == "ok" else ("HANG" if st == "hang" else r)}
+
+    def coq_check(self, case, obs):
+        if case["rule"] not in ("binaryformat-missing", "length-negative", "optional-without-default"):
+            return None            # the other rule violations are not expressible in the model's schema type
+        return coq_construct(case["schema"], obs["construct"])
 
     def oracle(self, case, obs):
         c = obs["construct"]
@@ -1923,6 +1945,32 @@ class JsonCodec(Family):
             out.append(("json-empty-bytes", "decode_row(b'') = %r, expected the defaults %r" % (obs["dec_empty"], tag(defaults))))
         out += oracle_str(case, obs)
         return dedup(out)
+
+    prelude = "From TskVerif Require Import Base.Common C12.Model.\nOpen Scope Z_scope."
+
+    def coq_check(self, case, obs):
+        """JSONCodec.decode's default filling (dict(self.defaults, **result)), key order included;
+        json.loads(json.dumps(.)) itself is Python's (trusted base)"""
+        if obs.get("construct") != "ok" or "rule" in case:
+            return None
+        s = case["schema"]
+        defaults = [(k, p["default"]) for k, p in s.get("properties", {}).items() if "default" in p]
+        terms = []
+        for tv, row in zip(case["values"], obs["rows"]):
+            if not isinstance(row.get("enc"), list) or "dec" not in row or (isinstance(tv, dict) and set(tv) == {"$b"}):
+                continue
+            v = untag(tv)
+            dec = row["dec"]
+            if not isinstance(v, dict) or not isinstance(dec, dict) or is_tf(dec):
+                continue
+            loaded = json.loads(canonical(v).decode())
+            try:
+                d = "[" + "; ".join("(%s, %s)" % (coq_key(k), coq_value(None, x)) for k, x in defaults) + "]"
+                kv = "[" + "; ".join("(%s, %s)" % (coq_key(k), coq_value(None, x)) for k, x in loaded.items()) + "]"
+                terms.append("value_eqb (VObj (json_fill %s %s)) %s" % (d, kv, coq_value(None, untag(dec))))
+            except Untranslatable:
+                continue
+        return " && ".join(terms) if terms else None
 
     def nontrivial(self, case, obs):
         pr = case["schema"].get("properties", {})
